@@ -187,6 +187,7 @@ type Interp struct {
 	tags      []string
 	pathUnknown bool
 	timeSeq   *sym.Term
+	frozenClock *sym.Term // set by vsym.FreezeClock: the environment clock stands still (observability-only uses of time)
 	seq       int
 	concPos   int
 	curFrame  *frame
@@ -371,6 +372,7 @@ func (in *Interp) resetPath() {
 	in.tags = nil
 	in.pathUnknown = false
 	in.timeSeq = nil
+	in.frozenClock = nil
 	in.seq = 0
 	in.concPos = 0
 	in.curFrame = nil
